@@ -6,8 +6,8 @@
    Stacks are lists with the TOP AT THE HEAD: [stacktop(-k)] is [nth (k-1)]; the display order
    (bottom first) is produced at the boundary. Every place where the C++ throws, asserts or has
    undefined behaviour yields an explicit status. *)
-From BV Require Import Base ScriptNum Script.
-From BV.Gen Require Import Consts Sites.
+From BV Require Import Base ScriptNum Script NumExpr.
+From BV.Gen Require Import Consts Sites NumOps.
 Local Open Scope Z_scope.
 
 (* ------------------------------------------------------------ configuration and oracles *)
@@ -156,30 +156,13 @@ Definition num_at (c : cfg) (e : see) (k : nat) (maxsz : nat) : outcome Z := sn_
 
 Definition b2z (b : bool) : Z := if b then 1 else 0.
 
-Definition unary_num (opcode bn : Z) : Z :=
-  if opcode =? OP_1ADD then bn + 1
-  else if opcode =? OP_1SUB then bn - 1
-  else if opcode =? OP_NEGATE then - bn
-  else if opcode =? OP_ABS then (if bn <? 0 then - bn else bn)
-  else if opcode =? OP_NOT then b2z (bn =? 0)
-  else (* OP_0NOTEQUAL *) b2z (negb (bn =? 0)).
-
-Definition binary_num (opcode bn1 bn2 : Z) : Z :=
-  if opcode =? OP_ADD then bn1 + bn2
-  else if opcode =? OP_SUB then bn1 - bn2
-  else if opcode =? OP_BOOLAND then b2z (negb (bn1 =? 0) && negb (bn2 =? 0))
-  else if opcode =? OP_BOOLOR then b2z (negb (bn1 =? 0) || negb (bn2 =? 0))
-  else if opcode =? OP_NUMEQUAL then b2z (bn1 =? bn2)
-  else if opcode =? OP_NUMEQUALVERIFY then b2z (bn1 =? bn2)
-  else if opcode =? OP_NUMNOTEQUAL then b2z (negb (bn1 =? bn2))
-  else if opcode =? OP_LESSTHAN then b2z (bn1 <? bn2)
-  else if opcode =? OP_GREATERTHAN then b2z (bn2 <? bn1)
-  else if opcode =? OP_LESSTHANOREQUAL then b2z (bn1 <=? bn2)
-  else if opcode =? OP_GREATERTHANOREQUAL then b2z (bn2 <=? bn1)
-  else if opcode =? OP_MIN then (if bn1 <? bn2 then bn1 else bn2)
-  else (* OP_MAX *) (if bn2 <? bn1 then bn1 else bn2).
-
-Definition within_num (bn1 bn2 bn3 : Z) : bool := (bn2 <=? bn1) && (bn1 <? bn3).
+(* the expressions come from the C++ switch statements (Gen/NumOps.v); a missing entry is the
+   [default: assert(!"invalid opcode")] branch *)
+Definition unary_num (opcode bn : Z) : option Z :=
+  match nassoc unop_table opcode with Some e => Some (neval [bn] e) | None => None end.
+Definition binary_num (opcode bn1 bn2 : Z) : option Z :=
+  match nassoc binop_table opcode with Some e => Some (neval [0; bn1; bn2] e) | None => None end.
+Definition within_num (bn1 bn2 bn3 : Z) : bool := negb (neval [0; bn1; bn2; bn3] within_expr =? 0).
 
 (* ------------------------------------------------------------ signature checks *)
 Fixpoint pv_lookup (m : list (bytes * bytes)) (sig : bytes) : option bytes :=
@@ -554,7 +537,9 @@ Definition hash_op (c : cfg) (opcode : Z) (v : bytes) : bytes :=
 Definition need (e : see) (n : Z) (err : Z) (k : see * status) : see * status :=
   if ssize e <? n then fail e err else k.
 
-(* the body of [switch (opcode)]; [pc'] is the iterator after the instruction (needed by OP_CODESEPARATOR) *)
+(* the body of [switch (opcode)]; [pc'] is the iterator after the instruction when it lies in env.script
+   (needed by OP_CODESEPARATOR); None for an instruction of exec's temporary script, which leaves
+   pbegincodehash where it is *)
 Definition exec_opcode (c : cfg) (e : see) (opcode : Z) (fExec : bool) (pc' : option bytes) : see * status :=
   let ISO := SCRIPT_ERR_INVALID_STACK_OPERATION in
   if is_extended_op opcode then step_extended c e opcode
@@ -659,7 +644,10 @@ Definition exec_opcode (c : cfg) (e : see) (opcode : Z) (fExec : bool) (pc' : op
   else if (opcode =? OP_1ADD) || (opcode =? OP_1SUB) || (opcode =? OP_NEGATE) || (opcode =? OP_ABS) || (opcode =? OP_NOT) || (opcode =? OP_0NOTEQUAL) then
     need e 1 ISO
       (match num_at c e 1 (Z.to_nat nDefaultMaxNumSize) with
-       | Ok bn => ok (pushs (popn e 1) (sn_serialize (unary_num opcode bn)))
+       | Ok bn => match unary_num opcode bn with
+                  | Some r => ok (pushs (popn e 1) (sn_serialize r))
+                  | None => (e, SCrash CRASH_ASSERT)
+                  end
        | Exn x => (e, SExn x) | Crash x => (e, SCrash x)
        end)
   else if ((OP_ADD <=? opcode) && (opcode <=? OP_SUB)) || ((OP_BOOLAND <=? opcode) && (opcode <=? OP_MAX)) then
@@ -670,10 +658,14 @@ Definition exec_opcode (c : cfg) (e : see) (opcode : Z) (fExec : bool) (pc' : op
          match num_at c e 1 (Z.to_nat nDefaultMaxNumSize) with
          | Exn x => (e, SExn x) | Crash x => (e, SCrash x)
          | Ok bn2 =>
-           let e1 := pushs (popn e 2) (sn_serialize (binary_num opcode bn1 bn2)) in
-           if opcode =? OP_NUMEQUALVERIFY then
-             (if cast_to_bool (stop e1 1) then ok (popn e1 1) else fail e1 SCRIPT_ERR_NUMEQUALVERIFY)
-           else ok e1
+           match binary_num opcode bn1 bn2 with
+           | None => (e, SCrash CRASH_ASSERT)
+           | Some r =>
+             let e1 := pushs (popn e 2) (sn_serialize r) in
+             if opcode =? OP_NUMEQUALVERIFY then
+               (if cast_to_bool (stop e1 1) then ok (popn e1 1) else fail e1 SCRIPT_ERR_NUMEQUALVERIFY)
+             else ok e1
+           end
          end
        end)
   else if opcode =? OP_WITHIN then
@@ -693,7 +685,7 @@ Definition exec_opcode (c : cfg) (e : see) (opcode : Z) (fExec : bool) (pc' : op
   else if (OP_RIPEMD160 <=? opcode) && (opcode <=? OP_HASH256) then
     need e 1 ISO (ok (pushs (popn e 1) (hash_op c opcode (stop e 1))))
   else if opcode =? OP_CODESEPARATOR then
-    ok (set_ed (set_cb e pc') (ed_set_codesep (e_ed e) (e_pos e)))
+    ok (set_ed (match pc' with Some p => set_cb e (Some p) | None => e end) (ed_set_codesep (e_ed e) (e_pos e)))
   else if (opcode =? OP_CHECKSIG) || (opcode =? OP_CHECKSIGVERIFY) then op_checksig low_s c e opcode
   else if opcode =? OP_CHECKSIGADD then op_checksigadd low_s c e
   else if (opcode =? OP_CHECKMULTISIG) || (opcode =? OP_CHECKMULTISIGVERIFY) then op_checkmultisig low_s c e opcode
